@@ -218,3 +218,21 @@ VARIANTS += [
       "                    if j >= n_dense:",
       "                    if not (n_dense > j):", "silent"),
 ]
+
+VARIANTS += [
+    V("training-runs-get-test-time", "moptipyapps/dynamic_control/system.py",
+      "                self.training_steps, self.training_time,",
+      "                self.training_steps, self.test_time,", "fire",
+      "D10.9"),
+    V("test-loop-uses-training-steps", "moptipyapps/dynamic_control/ode.py",
+      "                      test_steps, test_time)",
+      "                      training_steps, test_time)", "fire", "D10.9"),
+    V("silent-describe-system-keywords",
+      "moptipyapps/dynamic_control/system.py",
+      "                self.training_steps, self.training_time,\n"
+      "                self.state_dims_in_j, self.gamma)",
+      "                training_time=self.training_time,\n"
+      "                training_steps=self.training_steps,\n"
+      "                use_state_dims=self.state_dims_in_j, "
+      "gamma=self.gamma)", "silent"),
+]
